@@ -138,7 +138,7 @@ func C03(tier string) {
 			// against the float64 map (covers additivity: the reference is linear)
 			ref := M.MulV(refs.V3{float64(p.R), float64(p.G), float64(p.B)})
 			tol := 1.5e-6 * mag * normM
-			if d := math.Max(math.Abs(float64(x.X)-ref[0]), math.Max(math.Abs(float64(x.Y)-ref[1]), math.Abs(float64(x.Z)-ref[2]))); !(d <= tol) {
+			if d := math.Max(math.Abs(float64(x.X)-ref[0]), math.Max(math.Abs(float64(x.Y)-ref[1]), math.Abs(float64(x.Z)-ref[2]))); !(d <= tol) && !r.Seen(sp.Name+"/ToXYZ-linear") {
 				r.Violate(sp.Name+"/ToXYZ-linear", fmt.Sprintf("%s ToXYZ(%g,%g,%g) = (%g,%g,%g), linear map gives (%.9g,%.9g,%.9g) (|diff| %.3g > %.3g)", sp.Name, p.R, p.G, p.B, x.X, x.Y, x.Z, ref[0], ref[1], ref[2], d, tol),
 					map[string]interface{}{"space": sp.Name, "rgb": []float32{p.R, p.G, p.B}}, nil)
 			}
@@ -149,7 +149,7 @@ func C03(tier string) {
 				float64(p.R)*float64(cols[0].Z) + float64(p.G)*float64(cols[1].Z) + float64(p.B)*float64(cols[2].Z),
 			}
 			tolA := 6e-7 * mag * normM
-			if d := math.Max(math.Abs(float64(x.X)-add[0]), math.Max(math.Abs(float64(x.Y)-add[1]), math.Abs(float64(x.Z)-add[2]))); !(d <= tolA) {
+			if d := math.Max(math.Abs(float64(x.X)-add[0]), math.Max(math.Abs(float64(x.Y)-add[1]), math.Abs(float64(x.Z)-add[2]))); !(d <= tolA) && !r.Seen(sp.Name+"/ToXYZ-additive") {
 				r.Violate(sp.Name+"/ToXYZ-additive", fmt.Sprintf("%s ToXYZ(%g,%g,%g) = (%g,%g,%g) is not R*f(e1)+G*f(e2)+B*f(e3) = (%.9g,%.9g,%.9g)", sp.Name, p.R, p.G, p.B, x.X, x.Y, x.Z, add[0], add[1], add[2]),
 					map[string]interface{}{"space": sp.Name, "rgb": []float32{p.R, p.G, p.B}}, nil)
 			}
@@ -158,7 +158,7 @@ func C03(tier string) {
 			if mag > 1 || p.R < 0 || p.G < 0 || p.B < 0 {
 				tolR = 2e-6 * mag * math.Max(1, normM*normI/4)
 			}
-			if d := math.Max(math.Abs(float64(back.R-p.R)), math.Max(math.Abs(float64(back.G-p.G)), math.Abs(float64(back.B-p.B)))); !(d <= tolR) {
+			if d := math.Max(math.Abs(float64(back.R-p.R)), math.Max(math.Abs(float64(back.G-p.G)), math.Abs(float64(back.B-p.B)))); !(d <= tolR) && !r.Seen(sp.Name+"/roundtrip-RGB") {
 				r.Violate(sp.Name+"/roundtrip-RGB", fmt.Sprintf("%s RGB->XYZ->RGB of (%g,%g,%g) returns (%g,%g,%g) (|diff| %.3g > %.3g)", sp.Name, p.R, p.G, p.B, back.R, back.G, back.B, d, tolR),
 					map[string]interface{}{"space": sp.Name, "rgb": []float32{p.R, p.G, p.B}}, nil)
 			}
@@ -168,13 +168,13 @@ func C03(tier string) {
 			p := sp.FromXYZ(c)
 			ref := Minv.MulV(refs.V3{float64(c.X), float64(c.Y), float64(c.Z)})
 			tol := 1.5e-6 * mag * normI
-			if d := math.Max(math.Abs(float64(p.R)-ref[0]), math.Max(math.Abs(float64(p.G)-ref[1]), math.Abs(float64(p.B)-ref[2]))); !(d <= tol) {
+			if d := math.Max(math.Abs(float64(p.R)-ref[0]), math.Max(math.Abs(float64(p.G)-ref[1]), math.Abs(float64(p.B)-ref[2]))); !(d <= tol) && !r.Seen(sp.Name+"/FromXYZ-linear") {
 				r.Violate(sp.Name+"/FromXYZ-linear", fmt.Sprintf("%s ColorFromXYZ(%g,%g,%g) = (%g,%g,%g), inverse linear map gives (%.9g,%.9g,%.9g) (|diff| %.3g > %.3g)", sp.Name, c.X, c.Y, c.Z, p.R, p.G, p.B, ref[0], ref[1], ref[2], d, tol),
 					map[string]interface{}{"space": sp.Name, "xyz": []float32{c.X, c.Y, c.Z}}, nil)
 			}
 			back := sp.ToXYZ(p)
 			tolR := 2e-6 * mag * math.Max(1, normM*normI/4)
-			if d := math.Max(math.Abs(float64(back.X-c.X)), math.Max(math.Abs(float64(back.Y-c.Y)), math.Abs(float64(back.Z-c.Z)))); !(d <= tolR) {
+			if d := math.Max(math.Abs(float64(back.X-c.X)), math.Max(math.Abs(float64(back.Y-c.Y)), math.Abs(float64(back.Z-c.Z)))); !(d <= tolR) && !r.Seen(sp.Name+"/roundtrip-XYZ") {
 				r.Violate(sp.Name+"/roundtrip-XYZ", fmt.Sprintf("%s XYZ->RGB->XYZ of (%g,%g,%g) returns (%g,%g,%g) (|diff| %.3g > %.3g)", sp.Name, c.X, c.Y, c.Z, back.X, back.Y, back.Z, d, tolR),
 					map[string]interface{}{"space": sp.Name, "xyz": []float32{c.X, c.Y, c.Z}}, nil)
 			}
